@@ -32,6 +32,9 @@ Definition check_mapfn (k : mapkind) (ds ms rs ivs ims mis : list ext) : bool :=
   forall2b (mapfn_pt k) ds ms && forall2b (invmapfn_pt k) rs ivs
   && forall2b (invmapfn_pt k) ms ims && forall2b (mapfn_pt k) ivs mis.
 
+(** rprob1g / rprob2g / rprob1p / rprob2p: the map function applied to the distances the implementation computed *)
+Definition check_rprob (k : mapkind) (dists probs : list ext) : bool := forall2b (mapfn_pt k) dists probs.
+
 (** ** genetic maps *)
 Definition raw_t := list (Z * Z * float * list Z).
 Definition meta_eqb (a b : list Z * list Z * list Z * list Z) : bool :=
@@ -62,6 +65,18 @@ Definition check_interp (exact cm : bool) (raw : raw_t) (query : list (Z * Z)) (
   && extl_eqb (interp_genpos rows (own_pairs rows)) (fin_gens rows).
 
 (** [pay]: the vrnt_stop / vrnt_name / vrnt_fncode arrays handed to ExtendedGeneticMap.interp_gmap go to the new map unchanged *)
+(** a map constructed with auto_group = False: arrays stay in the supplied order ([before]), the spline is built from the
+    unsorted arrays (interp1d sorts the knots itself), interpolation gives the same positions; the congruence test inside
+    interp_genpos then groups (sorts) the map as a side effect (compared with [check_build] on the dump taken afterwards) *)
+Definition check_nogroup (exact cm : bool) (raw : raw_t) (query : list (Z * Z))
+    (before : list Z * list Z * list ext * list (list Z)) (grouped_before : bool) (q_gen : list ext) (q_gen_f : list float) : bool :=
+  let '(chr, phy, gen, pay) := before in
+  let rows := to_rows cm raw in
+  zl_eqb (map r_chr rows) chr && zl_eqb (map r_phy rows) phy && extl_eqb (fin_gens rows) gen && zll_eqb (map r_pay rows) pay
+  && negb grouped_before
+  && cmp exact q_gen (interp_genpos rows query)
+  && fl_eqb (interp_genpos_f (to_frows cm raw) query) q_gen_f.
+
 Definition check_igmap (exact cm : bool) (raw : raw_t) (query : list (Z * Z)) (pay : list (list Z))
     (impl : list Z * list Z * list ext * (list Z * list Z * list Z * list Z)) (pay_impl : list (list Z)) (keys : list Z) : bool :=
   let '(chr, phy, gen, meta) := impl in
